@@ -29,6 +29,10 @@ pub struct Upd {
     /// value = 2^i - 1
     pub i: u32,
     pub write: bool,
+    /// go through the StaticCodeRead/StaticCodeWrite impls of the wrapper instead
+    /// of the DynamicCodeRead/DynamicCodeWrite ones
+    #[serde(default)]
+    pub stat: bool,
 }
 
 #[derive(Clone, Copy, Debug, Serialize, Deserialize, PartialEq, Eq)]
@@ -161,10 +165,18 @@ fn scenario(s: Arc<S15>, table: Arc<HashMap<u32, Arc<Vec<Option<u64>>>>>, obs: A
                         let v = (1u64 << u.i) - 1;
                         let inv = seq.fetch_add(1, Ordering::SeqCst);
                         if u.write {
-                            let n = DynamicCodeWrite::write(&*wrapper, &mut writer, v).unwrap();
+                            let n = if u.stat {
+                                StaticCodeWrite::<$E, _>::write(&*wrapper, &mut writer, v).unwrap()
+                            } else {
+                                DynamicCodeWrite::write(&*wrapper, &mut writer, v).unwrap()
+                            };
                             assert!(n > 0, "C15.wrapper_write: wrote 0 bits");
                         } else {
-                            let r = DynamicCodeRead::read(&*wrapper, &mut reader).unwrap();
+                            let r = if u.stat {
+                                StaticCodeRead::<$E, _>::read(&*wrapper, &mut reader).unwrap()
+                            } else {
+                                DynamicCodeRead::read(&*wrapper, &mut reader).unwrap()
+                            };
                             assert!(r == v, "C15.wrapper_read: wrapper read {} instead of {}", r, v);
                         }
                         let done = seq.fetch_add(1, Ordering::SeqCst);
@@ -482,7 +494,7 @@ impl Family for C15 {
             let mut t = Vec::new();
             for _ in 0..k {
                 if let Some(i) = ids.pop() {
-                    t.push(Upd { i, write: rng.chance(1, 2) });
+                    t.push(Upd { i, write: rng.chance(1, 2), stat: rng.chance(1, 2) });
                 }
             }
             threads.push(t);
